@@ -11,8 +11,13 @@
               the parent -> children map, max_label += number of children
      246-287  parallel path: results stored by submission index while futures complete
               in an arbitrary order (a raising future aborts), then the same merge loop
-     (fix C06-1) ValueError when the final max_label does not fit the dtype
+     (fix C06-1) max_label is a Python int; ValueError when the final max_label does not fit
+              the dtype of the segmentation array ([dtmax]; [None] = no bound, used for
+              32/64-bit dtypes whose maximum cannot be reached by the generated cases)
      (fix C06-2) _create_relabel_map returns None when there is no label
+     (fix C06-3) the relabel lookup table is sized with a Python int (labels are unbounded
+              naturals here, so this repair has no counterpart in the model: the unrepaired
+              code disagrees with the model when a label equals the dtype maximum)
      312-317  final consecutive relabel (_create_relabel_map / _update_deblend_label_map)
      661-675  per source: footprint-equality guard, "only one label -> None",
               consecutive relabel of the watershed output
